@@ -126,4 +126,6 @@ def obligations(tier):
                                       'PyCdlib._walk_directories', 'PyCdlib._parse_path_table', 'DirectoryRecord.parse', 'DirectoryRecord.record',
                                       'PrimaryOrSupplementaryVD.parse', 'PrimaryOrSupplementaryVD.record', 'Inode.parse', 'RockRidge.parse'],
                         'samples': [(1, 2048, 2049)], 'stubs': ['M_struct', 'M_out', 'M_image', 'M_rand', 'constant clock']})
+    from vf.props import packing
+    obs += packing.obligations_for('C01.d', tier)
     return obs
